@@ -517,6 +517,15 @@ def run_check(pid, tier='quick', replay=None):
     seed = int(os.environ.get('VERIF_SEED', '1') or 1)
     cfg = load_prop(pid)
     pdir = os.path.join(VERIF, 'props', pid)
+    # One invocation per property at a time: the Coq directory (Gen.v), the extracted driver and the
+    # case files are shared, and two overlapping runs of the same property once produced spurious
+    # divergences (each overwrote the other's case files).  Different properties run in parallel freely.
+    import fcntl
+    lockdir = os.path.join(VERIF, 'build', 'locks')
+    os.makedirs(lockdir, exist_ok=True)
+    _lock = open(os.path.join(lockdir, pid + '.lock'), 'w')
+    fcntl.flock(_lock, fcntl.LOCK_EX)
+    globals()['_held_lock_' + pid] = _lock      # keep it open until the process exits
     wdir = os.path.join(BUILD, pid, 'run')
     os.makedirs(wdir, exist_ok=True)
     violations = []   # list of (replay_path, suffix)
